@@ -270,7 +270,9 @@ CHECKS["C18"] = dict(
 
 CHECKS["C06"] = dict(
     category="model_checking",
-    text="(a) documented data: on the network recorded from the real code (asset.SnapshotsAs* extractors labelled by hooks) TLC "
+    text="(c) documented indicator at the configured parameters: the network recorded from a strategy (26 of them) at a "
+         "configuration of distinct small periods must contain the recorded network of its documented indicator(s) at the same "
+         "periods, stage kind by stage kind with the amounts. (a) documented data: on the network recorded from the real code (asset.SnapshotsAs* extractors labelled by hooks) TLC "
          "propagates provenance tokens; the field set the action tokens depend on must equal the documented field set of each of "
          "the 32 base strategies. (b) documented rule: spec/Rules.tla + RulesData.tla generated from the transcription of the "
          "documentation (spec/rules_documented.json): TLC enumerates every realizable valuation of the comparison atoms of 30 "
